@@ -1485,6 +1485,17 @@ class ProcessStartCommandModel(ProcessStartCommand):
 class ApplicationStartJobsModel(ApplicationStartJobs):
     """ Model of a ApplicationStartJobs without any extern interaction. """
 
+    def get_load_requests(self) -> LoadMap:
+        """ Add the load of the processes already started in the model.
+        They are not stopped anymore, so they are not considered as pending requests, and they are unknown
+        to the Supvisors instances status, so they would not be considered in the instance load either. """
+        load_request_map = super().get_load_requests()
+        for process in self.supvisors.starter_model.process_list or []:
+            if not process.stopped():
+                for identifier in process.running_identifiers:
+                    load_request_map[identifier] = load_request_map.get(identifier, 0) + process.rules.expected_load
+        return load_request_map
+
     def fail_command(self, process: ProcessStatus, identifier: str, event_time: float, reason: str) -> None:
         """ Replace the force_process_state command by a direct update on ProcessStatus. """
         payload = {'state': self.failure_state,
